@@ -88,6 +88,15 @@ func DateTimeFromProto(proto *dtpb.DateTime) (DateTime, error) {
 	case dtpb.DateTime_YEAR:
 		l = dtYearLayout
 	}
+	switch l {
+	case dtDayLayout, dtMonthLayout, dtYearLayout:
+		// Partial DateTimes have no timezone: keep the calendar date of the element,
+		// not the instant at which it started in the element's timezone.
+		t = time.Date(t.Year(), t.Month(), t.Day(), 0, 0, 0, 0, time.UTC)
+	default:
+		// System DateTimes have millisecond precision; do not keep hidden microseconds.
+		t = t.Truncate(time.Millisecond)
+	}
 	return DateTime{t, l}, nil
 }
 
